@@ -14,9 +14,10 @@ T=$(cargo test --workspace --no-fail-fast --offline --target-dir $WT/target 2>&1
 echo "tests with change: $T"
 echo "$T" | grep -q "361 passed; 0 failed" || { echo "TESTS DO NOT PASS"; exit 1; }
 ( eval "$DEMO" ) > /tmp/seed_${ID}_with.log 2>&1; RW=$?
-git stash -q
+# (git stash is shared between the worktrees of one repository: use apply -R / apply instead)
+git apply -R /tmp/seed_$ID.diff
 ( eval "$DEMO" ) > /tmp/seed_${ID}_without.log 2>&1; RO=$?
-git stash pop -q
+git apply /tmp/seed_$ID.diff
 echo "demo exit with change: $RW   without: $RO"
 if [ $RW -ne 0 ] && [ $RO -eq 0 ]; then
   mkdir -p $OUT
